@@ -32,7 +32,7 @@ type CaseC09 struct {
 	Tail   int        `json:"tail"`    // decoded path: 0xFF bytes after the section in the decoder's input
 }
 
-const c09Kinds = 42
+const c09Kinds = 43
 
 func genC09(t *rapid.T) CaseC09 {
 	c := CaseC09{}
@@ -465,6 +465,35 @@ func c09Apply(st *c09State, mu MutC09) string {
 			md.Comps = append(md.Comps, ref.SegOffset{Tag: byte(0x40 + i), Offset: off})
 		}
 		d.SetComponents(cs)
+	case 42:
+		// adopt a descriptor that belongs to ANOTHER signal (decoded from it, or built and attached to it), then keep
+		// editing it through the caller's handle: the adopting signal must reflect those edits
+		nd := ref.SpliceDesc{Identifier: ref.CUEI, Event: uint32(mu.V), Prog: true, NotRestricted: true, Type: 0x30, Num: 1, Expected: 2,
+			UPIDType: 0x09, UPID: ref.Hex("adopted"), Comps: []ref.SegOffset{}, MID: []ref.SegUPID{}}
+		other := ref.Splice{TableID: 0xFC, Tier: 0xFFF, Cmd: 0x06, TSHasPTS: true, TSPTS: 1 + mu.V&0xFFFF, Descs: []ref.SpliceDesc{nd}}
+		var od scte35.SegmentationDescriptor
+		if mu.B {
+			o, err := scte35.NewSCTE35(append([]byte{0}, other.Encode()...))
+			if err != nil || len(o.Descriptors()) != 1 {
+				return ""
+			}
+			od = o.Descriptors()[0]
+			nd = c09DecodedView(other).Descs[0]
+		} else {
+			ov := apiExpressible(other)
+			o := buildSpliceAPI(&ov, 0)
+			if len(o.Descriptors()) != 1 {
+				return ""
+			}
+			od = o.Descriptors()[0]
+			nd = ov.Descs[0]
+		}
+		s.SetDescriptors(append(append([]scte35.SegmentationDescriptor{}, ds...), od))
+		od.SetSegmentNumber(byte(mu.V >> 8))
+		od.SetEventID(uint32(mu.V >> 16))
+		nd.Num, nd.Event = byte(mu.V>>8), uint32(mu.V>>16)
+		m.Descs = append(m.Descs, nd)
+		return fmt.Sprintf("adopt descriptor of another signal (decoded %v) and edit it through the caller's handle", mu.B)
 	case 40:
 		// the descriptor's own component list handed back in another order (reverse / rotate / first one repeated in front)
 		cs := d.Components()
@@ -709,7 +738,7 @@ func c09VerifyEncoding(st *c09State, c CaseC09, what string) *hx.Failure {
 var propC09 = hx.Register(hx.Prop[CaseC09]{ID: "C09", Gen: genC09, Check: checkC09})
 
 func c09Rule() {
-	hx.Rec("C09").SetRule("cases: a reference-model signal (C08 generator; time-less time_signal / splice_insert forms added on the API path) realised either (api) through CreateSCTE35/Create*Command/CreateSegmentationDescriptor/CreateUPID/CreateComponentOffset and setters with a drawn selection of set-then-clear noise, out-of-width values and UPID-kind switching, or (decoded) by decoding the reference encoding; then a drawn history of 0..8 further setter calls out of 41 kinds (signal, command, descriptor, descriptor-list and command replacement, a descriptor's own component / MID list handed back reordered; the byte slices given to SetUPID are adjacent windows of one caller buffer) is applied to the library object and to the model. Oracle: UpdateData() = reference encoding of the model in the library's normal form, byte for byte (alignment-stuffing byte values masked); reference CRC residue 0; section_length consistent; Data() unchanged by setters and equal to the encoding afterwards; UpdateData twice and String() leave the bytes unchanged; descriptor getters reflect the setters; decoding the encoded bytes reports the model (when the decoder supports the form); with an empty history a decoded canonical section re-encodes to itself. Non-trivial: cancelled/component/immediate splice_insert, a field with a bit >= 32, >= 2 descriptor shapes or >= 2 descriptors, set-then-clear noise, or a flag cleared by a setter.",
+	hx.Rec("C09").SetRule("cases: a reference-model signal (C08 generator; time-less time_signal / splice_insert forms added on the API path) realised either (api) through CreateSCTE35/Create*Command/CreateSegmentationDescriptor/CreateUPID/CreateComponentOffset and setters with a drawn selection of set-then-clear noise, out-of-width values and UPID-kind switching, or (decoded) by decoding the reference encoding; then a drawn history of 0..8 further setter calls out of 42 kinds (signal, command, descriptor, descriptor-list and command replacement, adopting a descriptor of another signal and editing it through the caller's handle, a descriptor's own component / MID list handed back reordered; the byte slices given to SetUPID are adjacent windows of one caller buffer) is applied to the library object and to the model. Oracle: UpdateData() = reference encoding of the model in the library's normal form, byte for byte (alignment-stuffing byte values masked); reference CRC residue 0; section_length consistent; Data() unchanged by setters and equal to the encoding afterwards; UpdateData twice and String() leave the bytes unchanged; descriptor getters reflect the setters; decoding the encoded bytes reports the model (when the decoder supports the form); with an empty history a decoded canonical section re-encodes to itself. Non-trivial: cancelled/component/immediate splice_insert, a field with a bit >= 32, >= 2 descriptor shapes or >= 2 descriptors, set-then-clear noise, or a flag cleared by a setter.",
 		"foreign descriptors after a segmentation descriptor and splice_command_length 0xFFF are compared against the library's normal form (foreign first, real length)",
 		"after SetTypeID the sub-segment flag is re-set explicitly (undocumented interaction)",
 		"signals the decoder does not support (time-less forms) are checked against the reference encoder only")
